@@ -24,7 +24,7 @@ E2_BOUNDS = {
             "thorough": "program family: M0 without callbacks + 24 random modules, each fitted to the Dart and to the Kotlin profile"},
     "C11": {"quick": "C header: every enum of M0 + 2 random modules; tables of Dart, Kotlin, C++, nanobind, JS: the family's enums + 12 adversarial patterns; variant index symbolic; 1..8 variants within i32",
             "thorough": "as quick with 24 random modules"},
-    "C08": {"quick": "emitted JS: module m0_js (18 struct shapes), js.abi=legacy and spec; reference layout vs rustc: all structs of m0_js",
+    "C08": {"quick": "emitted JS: module m0_js (21 struct shapes + fallible/optional returns) and 2 (thorough: 8) seeded random struct modules, js.abi=legacy and spec; reference layout vs rustc: all structs of m0_js",
             "thorough": "same as quick"},
 }
 
